@@ -47,6 +47,10 @@ def expr(shape, what):
     return {"entity_id": ref, "create_if": f"{ref} != ''", "update_if": f"{ref} = 'u'", "label": f"concat('L', {ref})"}[what]
 
 
+NS_VARIANTS = [None, None, 'x="http://example.org/x"', 'geoentities="http://example.org/geoentities"', 'sub_entities="http://example.org/s" y="http://example.org/y"',
+               'entitiesx="http://example.org/ex"', 'a="http://example.org/entities="']
+
+
 def build(combo, shape, placement, dataset, prop="prop_a"):
     has_id, has_c, has_u, has_l = combo
     f = Form()
@@ -211,7 +215,11 @@ def run_shard(ctx):
                     if not ctx.mine(n):
                         continue
                     form, saved = build(combo, shape, placement, dataset)
-                    sig = f"{combo}|{shape}|{placement}|{dataset}"
+                    # custom namespaces next to the entity declaration (rotating): prefixes that contain or end in 'entities' included
+                    nsv = NS_VARIANTS[n % len(NS_VARIANTS)]
+                    if nsv:
+                        form.settings["namespaces"] = nsv
+                    sig = f"{combo}|{shape}|{placement}|{dataset}|ns{n % len(NS_VARIANTS)}"
                     ctx.ctr("decision_cases")
                     ctx.case(sig=sig)
                     wit = lambda **kw: common.witness(form, combo=list(combo), shape=shape, placement=placement, dataset=dataset, **kw)  # noqa: E731
@@ -264,9 +272,10 @@ def run_shard(ctx):
     structural = []
     f1 = gen.simple_form([("text", "q1", {"label": "Q", "save_to": "p"})])
     structural.append(("saveto-without-entities-sheet", f1))
-    f2, _ = build((0, 0, 0, 1), "literal", "none", "trees")
-    f2.entities["bogus_column"] = "x"
-    structural.append(("unknown-entities-column", f2))
+    for col in ("bogus_column", "name", "Name", "type", "parameters", "parent", "extra_data", "children", "repeat", "save_to", "bind::x", "relevant", "calculation"):
+        f2, _ = build((0, 0, 0, 1), "literal", "none", "trees")
+        f2.entities[col] = "x"
+        structural.append((f"unknown-entities-column:{col}", f2))
     f3, _ = build((0, 0, 0, 1), "literal", "none", "trees")
     f3.extra_sheets = {}
     structural.append(("two-entity-rows", f3))
